@@ -72,7 +72,7 @@ pub fn rule_json(r: &Value) -> Value {
 pub fn config_of(c: &Value) -> RouterConfig {
     serde_json::from_value(json!({
         "ignore_host_case": c["ihc"], "ignore_header_case": c["ihdr"], "ignore_path_and_query_case": c["ipc"],
-        "always_match_any_host": c["always"], "ignore_marketing_query_params": true, "pass_marketing_query_params_to_target": true,
+        "always_match_any_host": c["always"], "ignore_marketing_query_params": c.get("mkt").and_then(|x| x.as_bool()).unwrap_or(true), "pass_marketing_query_params_to_target": true,
     })).expect("config")
 }
 
